@@ -28,6 +28,12 @@ Theorem C11_ignorable_is_noop :
 Proof. exact ignorable_is_noop. Qed.
 Print Assumptions C11_ignorable_is_noop.
 
+(* The shapes SVG declares "not rendered" for their geometry (non-positive width/height/r/rx/ry, fewer than two
+   points / segments) are exactly covered by the validity tests cut out of shapes.rs. *)
+Theorem C11_zero_size_is_invalid : forall t a, zero_size t a = true -> shape_valid t a = false.
+Proof. exact zero_size_invalid. Qed.
+Print Assumptions C11_zero_size_is_invalid.
+
 (* convert_children / convert_clip_path_elements do not see ignorable siblings, wherever they stand *)
 Theorem C11_context_free :
   forall (state : Type) (st_in_clip st_no_markers : state -> bool)
@@ -130,6 +136,18 @@ Theorem C11_foreign_or_unknown_attr_dropped :
   forall x, xa_ns x = ANS_Foreign \/ xa_known x = false -> keep_attr x = false.
 Proof. exact keep_attr_false. Qed.
 Print Assumptions C11_foreign_or_unknown_attr_dropped.
+
+(* KNOWN class singular_transform_kept: `has_valid_transform` (tiny-skia Transform::is_valid) tests the scale
+   factors, not the determinant: a non-invertible matrix such as matrix(1 2 2 4 300 300) passes, the element
+   stays in the tree (and in the bounding boxes) although SVG says it is not rendered. *)
+Theorem C11_known_singular_transform_kept_refuted : exists t, ts_det t == 0 /\ usvg_ts_valid t = true.
+Proof. exact singular_transform_refuted. Qed.
+Print Assumptions C11_known_singular_transform_kept_refuted.
+
+Theorem C11_noninvertible_is_invalid_guarded :
+  forall t, ts_det t == 0 -> singular_kept t = false -> usvg_ts_valid t = false.
+Proof. exact singular_transform_guarded. Qed.
+Print Assumptions C11_noninvertible_is_invalid_guarded.
 
 (* ------------------------------------------------------------------ non-vacuity *)
 Definition ex_attrs : attrs :=
